@@ -30,6 +30,11 @@ type Store struct {
 	state                      storeState
 	stateMu                    sync.Mutex
 	sourceSplitters            []connectors.SourceSplitter
+
+	// Closed when the most recently started publication has finished. Each
+	// publication waits for the one before it, so that snapshots are published in
+	// checkpoint order.
+	lastPublication chan struct{}
 }
 
 type storeState struct {
@@ -188,7 +193,18 @@ func (s *Store) finishSnapshot(snap *jobSnapshot) {
 	}
 	snap.splitterState = s.sourceSplitters[0].Checkpoint()
 
+	// Publish asynchronously but one snapshot at a time and in checkpoint order,
+	// otherwise a slow publication of an older checkpoint would replace a newer
+	// one and delete its file.
+	previous := s.lastPublication
+	done := make(chan struct{})
+	s.lastPublication = done
+
 	go func() {
+		defer close(done)
+		if previous != nil {
+			<-previous
+		}
 		uri, err := s.finishSnapshotAsync(snap)
 		if err != nil {
 			s.errChan <- err
@@ -234,17 +250,19 @@ func (s *Store) finishSnapshotAsync(snap *jobSnapshot) (uri string, err error) {
 			}
 		}()
 
-		// Notify subscribers of new list of checkpoints to retain (just the completed one)
-		if s.retainedCheckpointsUpdated != nil {
-			go func() {
-				s.retainedCheckpointsUpdated <- []uint64{snap.id}
-			}()
-		}
 	}
+	notifyRetained := len(s.state.completedSnapshots) > 0 && s.retainedCheckpointsUpdated != nil
 
 	// Reset the completed snapshots to remove obsolete checkpoints
 	s.state.completedSnapshots = []*jobSnapshot{snap}
 	s.stateMu.Unlock()
+
+	// Notify subscribers of new list of checkpoints to retain (just the completed
+	// one). Sent from the publication itself so that notices arrive in checkpoint
+	// order.
+	if notifyRetained {
+		s.retainedCheckpointsUpdated <- []uint64{snap.id}
+	}
 
 	s.log.Info("store wrote checkpoint", "uri", uri)
 
